@@ -12,6 +12,7 @@ package main
 import (
 	"fmt"
 	"go/token"
+	"go/types"
 	"strings"
 
 	"golang.org/x/tools/go/ssa"
@@ -53,10 +54,22 @@ func storageOf(p *Prog, v ssa.Value, fn *ssa.Function, depth int, seen map[ssa.V
 		return local(x, "a variable")
 	case *ssa.Slice:
 		return storageOf(p, x.X, fn, depth+1, seen)
-	case *ssa.IndexAddr:
-		return storageOf(p, x.X, fn, depth+1, seen)
-	case *ssa.FieldAddr:
-		return storageOf(p, x.X, fn, depth+1, seen)
+	case *ssa.IndexAddr, *ssa.FieldAddr:
+		// the address of a part of an object this function was handed (a receiver, a pointer parameter): the object
+		// existed before the call and outlives it
+		if par, ok := p.origin(addrRoot(v)).(*ssa.Parameter); ok {
+			if _, isPtr := par.Type().Underlying().(*types.Pointer); isPtr {
+				what := "part of the object received as " + par.Name()
+				if fa, ok := v.(*ssa.FieldAddr); ok {
+					what = "the field " + fieldKeyAddr(fa) + " of the object received as " + par.Name()
+				}
+				return stPersistent, what + ", which outlives the call"
+			}
+		}
+		if ia, ok := v.(*ssa.IndexAddr); ok {
+			return storageOf(p, ia.X, fn, depth+1, seen)
+		}
+		return storageOf(p, v.(*ssa.FieldAddr).X, fn, depth+1, seen)
 	case *ssa.Convert:
 		return stFresh, "a conversion result"
 	case *ssa.ChangeType:
@@ -209,4 +222,95 @@ func runEngineA6(p *Prog, o *obls) {
 	if n == 0 && !p.Fixture {
 		o.note("A6", "no-site", "-", "no SetExtension call in the repository")
 	}
+}
+
+// A8 — what is written downstream is not storage the interceptor overwrites later. An RTCP packet handed to the
+// RTCPWriter may be kept by the receiver of the call (a test stream queues batches, an application inspects reports
+// after the next tick). A report object that lives in a field of the stream and is refilled for every tick makes
+// every earlier report show the latest values. Each element of the packet slice passed to RTCPWriter.Write, where
+// its origin can be classified (rule A6's storage classifier), must be allocated for this report.
+
+func init() {
+	registerEngine("A8", []string{"A8"}, runEngineA8)
+}
+
+func runEngineA8(p *Prog, o *obls) {
+	n := 0
+	for _, fn := range p.Funcs {
+		k := 0
+		instrsOf(fn, func(in ssa.Instruction) {
+			call, ok := in.(*ssa.Call)
+			if !ok || !call.Call.IsInvoke() || call.Call.Method.Name() != "Write" || len(call.Call.Args) < 1 {
+				return
+			}
+			if n := p.rootNamed("RTCPWriter"); n == nil || !types.Identical(call.Call.Value.Type(), n) {
+				return
+			}
+			elems := sliceElements(p, call.Call.Args[0], 0, map[ssa.Value]bool{})
+			if len(elems) == 0 {
+				return
+			}
+			n++
+			k++
+			key := fmt.Sprintf("%s:rtcp-write", funcKey(fn))
+			if k > 1 {
+				key = fmt.Sprintf("%s#%d", key, k)
+			}
+			var bad []string
+			for _, e := range elems {
+				x := stripIface(e)
+				if !isRefType(x.Type()) {
+					continue
+				}
+				if c, why := storageOf(p, x, fn, 0, map[ssa.Value]bool{}); c == stPersistent {
+					bad = append(bad, fmt.Sprintf("the packet %s written at %s is %s", shortExpr(p, x), p.instrPos(call), why))
+				}
+			}
+			if len(bad) > 0 {
+				o.bad("A8", key, p.instrPos(call), strings.Join(dedupe(bad), "; ")+": it is refilled for the next report, so a receiver that still holds this one sees the later values")
+			} else {
+				o.ok("A8", key, p.instrPos(call), fmt.Sprintf("%d packet(s) written downstream, none recognisably longer-lived than the call", len(elems)))
+			}
+		})
+	}
+	o.ok("A8", "inspected", "-", fmt.Sprintf("%d RTCP write(s) with a locally built packet list", n))
+}
+
+// sliceElements: the values stored into the elements of a locally built slice (a slice literal, or appends of
+// single values).
+func sliceElements(p *Prog, v ssa.Value, d int, seen map[ssa.Value]bool) []ssa.Value {
+	v = p.origin(v)
+	if v == nil || seen[v] || d > 6 {
+		return nil
+	}
+	seen[v] = true
+	switch x := v.(type) {
+	case *ssa.Slice:
+		al, ok := x.X.(*ssa.Alloc)
+		if !ok || al.Referrers() == nil {
+			return nil
+		}
+		var out []ssa.Value
+		for _, r := range *al.Referrers() {
+			if ia, ok := r.(*ssa.IndexAddr); ok && ia.Referrers() != nil {
+				for _, r2 := range *ia.Referrers() {
+					if st, ok := r2.(*ssa.Store); ok && st.Addr == ssa.Value(ia) {
+						out = append(out, st.Val)
+					}
+				}
+			}
+		}
+		return out
+	case *ssa.Call:
+		if builtinName(&x.Call) == "append" && len(x.Call.Args) == 2 {
+			return append(sliceElements(p, x.Call.Args[0], d+1, seen), sliceElements(p, x.Call.Args[1], d+1, seen)...)
+		}
+	case *ssa.Phi:
+		var out []ssa.Value
+		for _, e := range x.Edges {
+			out = append(out, sliceElements(p, e, d+1, seen)...)
+		}
+		return out
+	}
+	return nil
 }
